@@ -26,7 +26,7 @@ def run(ctx):
                      "request's profile, start == now and >= the request's release; "
                      "getters of cluster and tasks identical before/after each call (compared in Coq as values)")
     dist_all = {}
-    for mode, n in (("natural", 120 if quick else 1500), ("adversarial", 50 if quick else 500), ("load", 40 if quick else 300), ("sim", 20 if quick else 150)):
+    for mode, n in (("natural", 100 if quick else 1500), ("adversarial", 40 if quick else 500), ("load", 30 if quick else 300), ("sim", 15 if quick else 150)):
         hs, impls = c15.generate(ctx, n, size, mode)
         nt, dist = c15.stats(ctx, hs, impls)
         ctx.cov["distinct_nontrivial"] += nt
